@@ -10,7 +10,7 @@
 (*            sec: {name: scheme}, security: <requirements | null> }        *)
 (*  op    = { opId, params: {"<in>:<name>": {required, cons}}, body,        *)
 (*            responses: {code: resp}, security }                           *)
-(*  body  = null | {kind:"body", required, schema, mts}                     *)
+(*  body  = null | {kind:"body", required, schema, mts, name (v2 only)}     *)
 (*               | {kind:"form", fields: {name: {required, cons}}, mts}     *)
 (*  resp  = { description, headers: {name: cons}, schema }                  *)
 (*  cons / schema = schema normal form (Norm): the constraint keywords,     *)
@@ -204,6 +204,7 @@ Op2(d, item, op) ==
                ELSE IF Cardinality(bodies) = 1 /\ forms = {} THEN
                   LET b == CHOOSE x \in bodies : TRUE IN
                   O(KV("kind", S("body")) @@ KV("required", Req(b)) @@ KV("mts", mts)
+                    @@ KV("name", Opt(b, "name"))       \* OpenAPI 2 only: see ApiDiff3
                     @@ KV("schema", IF Has(b, "schema") THEN Norm(2, names, b.m["schema"]) ELSE Nul))
                ELSE IF bodies = {} THEN
                   O(KV("kind", S("form")) @@ KV("mts", mts)
@@ -383,6 +384,19 @@ NoSer(api) ==
                   IF op.t = "obj" THEN O([f \in DOMAIN op.m \ {"ser", "serSaid"} |-> op.m[f]]) ELSE op])
         ELSE api.m[k]])
 ApiDiff(expApi, gotApi) == Diff(NoSer(expApi), OnlyDefsOf(NoSer(gotApi), expApi), <<>>)
+(* A body parameter is a parameter: it has a name (inline, or that of the shared parameter it refers to).  An OpenAPI 3  *)
+(* request body has none, so the name is no part of the comparison of an OpenAPI 2 with an OpenAPI 3 document (ApiDiff3);  *)
+(* between two OpenAPI 2 documents - the original and the one converted back - it is compared like everything else       *)
+(* (ApiDiff): how the converter carries the name through OpenAPI 3 is its own business.                                   *)
+NoBodyName(api) ==
+   O([k \in DOMAIN api.m |->
+        IF k = "ops" /\ api.m[k].t = "obj"
+        THEN O([o \in DOMAIN api.m[k].m |-> LET op == api.m[k].m[o] IN
+                  IF op.t = "obj" /\ Has(op, "body") /\ Has(op.m["body"], "name")
+                  THEN O([f \in DOMAIN op.m |-> IF f = "body" THEN O([g \in DOMAIN op.m[f].m \ {"name"} |-> op.m[f].m[g]]) ELSE op.m[f]])
+                  ELSE op])
+        ELSE api.m[k]])
+ApiDiff3(expApi2, gotApi3) == ApiDiff(NoBodyName(expApi2), gotApi3)
 (* wherever the converted document states a serialisation of an array the original has, it states the original's *)
 SerDiffs(expApi, gotApi) ==
    LET eo == Sub(expApi, "ops")  go == Sub(gotApi, "ops") IN
